@@ -75,7 +75,8 @@ Definition import_target (sdir : list bytes) (idb rest : bytes) : list bytes :=
   clean_comps (rev sdir) (split_on c_slash (idb ++ c_under :: rest)).
 
 Inductive mkind := MFile | MDir | MTarErr.   (* MTarErr: tar.Reader.Next fails here (truncated / malformed stream) *)
-Record member := { m_name : bytes; m_kind : mkind; m_body : bytes }.
+(* m_valid: backendOpen + Reader.Check accept the file written for this member (an ORACLE here: Open/Check on a zip) *)
+Record member := { m_name : bytes; m_kind : mkind; m_body : bytes; m_valid : bool }.
 
 Fixpoint list_beq (a b : list bytes) : bool :=
   match a, b with
@@ -108,7 +109,9 @@ Fixpoint import_run (sdir : list bytes) (idb : bytes) (dirs : list (list bytes))
                | Some (_, rest) =>
                    let tgt := import_target sdir idb rest in
                    if can_create sdir dirs tgt
-                   then let (w, ok) := import_run sdir idb dirs r export_found in (tgt :: w, ok)
+                   then if m_valid m
+                        then let (w, ok) := import_run sdir idb dirs r export_found in (tgt :: w, ok)
+                        else ([tgt], false)          (* written, then Open / Check fail: the import stops *)
                    else ([], false)
                end
       end
@@ -158,12 +161,43 @@ Fixpoint import_writes (sdir : list bytes) (idb : bytes) (dirs : list (list byte
                    if can_create sdir dirs tgt
                    then let old := match path_lookup tgt fs with Some c => c | None => [] end in
                         let c := overlay old (m_body m) in
-                        let (w, ok) := import_writes sdir idb dirs ((tgt, c) :: fs) r export_found in
-                        ((tgt, c) :: w, ok)
+                        if m_valid m
+                        then let (w, ok) := import_writes sdir idb dirs ((tgt, c) :: fs) r export_found in
+                             ((tgt, c) :: w, ok)
+                        else ([(tgt, c)], false)
                    else ([], false)
                end
       end
   end.
+
+(* Import as a whole: tr.Start() creates the lock file <id>_importing; on success tr.Commit() removes it; on ANY error
+   the deferred tr.Cancel() removes every file matching the glob <id>_*.zip directly in the snapshots directory, then
+   the lock. [import_final] = the regular files below the snapshots directory afterwards (latest binding first). *)
+Fixpoint has_suffix (suf l : bytes) : bool :=
+  beq suf l || match l with [] => false | _ :: r => has_suffix suf r end.
+Definition s_zip : bytes := [46;122;105;112].
+Definition s_importing : bytes := [105;109;112;111;114;116;105;110;103].
+(* filepath.Match(`<id>_*.zip`, n) *)
+Definition glob_id_zip (idb n : bytes) : bool :=
+  has_prefix (idb ++ [c_under]) n && has_suffix s_zip (skipn (length idb + 1) n).
+
+Definition import_final (sdir : list bytes) (idb : bytes) (dirs : list (list bytes)) (fs : list (list bytes * bytes))
+  (ms : list member) : list (list bytes * bytes) * bool :=
+  let (w, ok) := import_writes sdir idb dirs fs ms false in
+  let fs1 := rev w ++ fs in
+  let lock := sdir ++ [idb ++ c_under :: s_importing] in
+  let fs2 := filter (fun pc => negb (list_beq (fst pc) lock)) fs1 in
+  if ok then (fs2, true)
+  else (filter (fun pc => negb (match strip_prefix sdir (fst pc) with
+                                | Some [n] => glob_id_zip idb n
+                                | _ => false
+                                end)) fs2, false).
+
+(* SnapshotExport.StreamTo: content.json, one member per snapshot file (named by its base name), export.json *)
+Definition export_members (files : list (bytes * bytes)) : list member :=
+  {| m_name := s_content_json; m_kind := MFile; m_body := []; m_valid := true |} ::
+  map (fun nc => {| m_name := fst nc; m_kind := MFile; m_body := snd nc; m_valid := true |}) files ++
+  [{| m_name := s_export_json; m_kind := MFile; m_body := []; m_valid := true |}].
 
 (* ================================================================ restore *)
 
@@ -373,9 +407,20 @@ Inductive case :=
 | ImportCase (sdir : list bytes) (idb : bytes) (dirs : list (list bytes)) (files : list (list bytes * bytes))
              (ms : list member)
              (obs_written : list (list bytes * bytes)) (obs_ok : bool) (obs_outside_unchanged : bool)
+             (obs_final : list (list bytes * bytes))     (* regular files below the snapshots directory afterwards *)
+| RoundTripCase (sdir : list bytes) (ida idb : bytes) (files : list (bytes * bytes))   (* (rest, content) of <ida>_<rest> *)
+             (obs_stream : list member)                       (* the members of the stream SnapshotExport.StreamTo produced *)
+             (obs_written : list (list bytes * bytes)) (obs_ok : bool) (obs_final : list (list bytes * bytes))
 | RestoreCase (cur : option name) (es : list (pstate * rentry)) (a : after)
               (obs_ok : bool) (obs_final : list pstate)
               (users : list bytes) (zs : list zentry) (obs_check_ok : bool).
+
+Definition opt_bytes_eqb (a b : option bytes) : bool :=
+  match a, b with
+  | Some x, Some y => beq x y
+  | None, None => true
+  | _, _ => false
+  end.
 
 Fixpoint writes_eqb (a b : list (list bytes * bytes)) : bool :=
   match a, b with
@@ -384,13 +429,34 @@ Fixpoint writes_eqb (a b : list (list bytes * bytes)) : bool :=
   | _, _ => false
   end.
 
+(* equality of two file listings as finite maps (latest binding first) *)
+Definition fs_eqb (a b : list (list bytes * bytes)) : bool :=
+  forallb (fun p => opt_bytes_eqb (path_lookup p a) (path_lookup p b)) (map fst a ++ map fst b).
+
+(* the exported stream has the members of the model, in order (the bodies of the two json members are not compared) *)
+Fixpoint members_match (a b : list member) : bool :=
+  match a, b with
+  | [], [] => true
+  | x :: a', y :: b' =>
+      beq (m_name x) (m_name y) &&
+      match m_kind x, m_kind y with MFile, MFile => true | _, _ => false end &&
+      (beq (m_name x) s_content_json || beq (m_name x) s_export_json || beq (m_body x) (m_body y)) &&
+      members_match a' b'
+  | _, _ => false
+  end.
+
 Definition big_fuel : nat := 1000.     (* no injected failure: the real run has at most 12 fallible steps per entry *)
 
 Definition mismatch (c : case) : bool :=
   match c with
-  | ImportCase sdir idb dirs files ms ow ook _ =>
+  | ImportCase sdir idb dirs files ms ow ook _ ofinal =>
       let (w, ok) := import_writes sdir idb dirs files ms false in
-      negb (writes_eqb w ow && Bool.eqb ok ook)
+      negb (writes_eqb w ow && Bool.eqb ok ook && fs_eqb (fst (import_final sdir idb dirs files ms)) ofinal)
+  | RoundTripCase sdir ida idb files ostream ow ook ofinal =>
+      let afiles := map (fun rc => (sdir ++ [ida ++ c_under :: fst rc], snd rc)) files in
+      let (w, ok) := import_writes sdir idb [] afiles ostream false in
+      negb (members_match ostream (export_members (map (fun rc => (ida ++ c_under :: fst rc, snd rc)) files)) &&
+            writes_eqb w ow && Bool.eqb ok ook && fs_eqb (fst (import_final sdir idb [] afiles ostream)) ofinal)
   | RestoreCase cur es a ook ofinal users zs ocheck =>
       let (ok, final) := restore cur es big_fuel a in
       negb (Bool.eqb ok ook && pstates_eqb final ofinal && Bool.eqb (check users zs) ocheck)
@@ -449,8 +515,19 @@ Fixpoint success_all (cur : option name) (a : after) (es : list (pstate * rentry
    extracted trees and leaves everything else alone *)
 Definition monitor_fail (c : case) : bool :=
   match c with
-  | ImportCase sdir idb dirs files ms ow ook unchanged =>
-      negb (forallb (strictly_below sdir) (map fst ow) && unchanged)
+  | ImportCase sdir idb dirs files ms ow ook unchanged ofinal =>
+      negb (forallb (strictly_below sdir) (map fst ow) && unchanged) ||
+      (* a failed import leaves no <id>_*.zip file in the snapshots directory: nothing is committed *)
+      (negb ook && existsb (fun pc => match strip_prefix sdir (fst pc) with
+                                      | Some [n] => glob_id_zip idb n
+                                      | _ => false
+                                      end) ofinal)
+  | RoundTripCase sdir ida idb files ostream ow ook ofinal =>
+      (* the round trip reproduces every exported file under the new id, and the exported files are still there *)
+      negb (ook &&
+            forallb (fun rc => opt_bytes_eqb (path_lookup (sdir ++ [idb ++ c_under :: fst rc]) ofinal) (Some (snd rc)) &&
+                               opt_bytes_eqb (path_lookup (sdir ++ [ida ++ c_under :: fst rc]) ofinal) (Some (snd rc))) files &&
+            forallb (strictly_below sdir) (map fst ow))
   | RestoreCase cur es a ook ofinal users zs ocheck =>
       (if negb ook then negb (pstates_eqb ofinal (map fst es))
        else match a with
